@@ -6,6 +6,7 @@ Table-level facts for the documented colour spellings, checked by `decide +kerne
 namespace RichModel
 open AsciiStr
 namespace Style
+variable {T : StrTables} [hT : T.Lawful]
 
 /-- The `Color` a table row `(name, number)` stands for. -/
 def namedColor (p : List Char × Nat) : Color :=
@@ -17,24 +18,82 @@ def numberedColor (n : Nat) : Color :=
 
 def defaultColor : Color := { name := cl! "default", type := .default }
 
+/-- An ASCII lower-case word that does not open like `rgb(`: everything `Color.parse` does with it is
+independent of the interpreter's tables. -/
+def asciiColorName (w : List Char) : Bool :=
+  allAscii w && w.all (fun c => !AsciiStr.isSpace c) && AsciiStr.lower w == w &&
+    (dropPrefix? (cl! "rgb(") w).isNone
+
+omit hT in
+theorem matchRe_not_rgb {s : List Char} (T' : StrTables) (h : dropPrefix? (cl! "rgb(") s = none) :
+    matchRe T s = matchRe T' s := by
+  unfold matchRe
+  split
+  · rfl
+  · simp [h]
+
+omit hT in
+/-- Outside the `rgb(` form `Color.parse` never consults the tables. -/
+theorem parseNormT_not_rgb {s : List Char} (T' : StrTables) (v : StyleVariant)
+    (h : dropPrefix? (cl! "rgb(") s = none) : Color.parseNormT T v s = Color.parseNormT T' v s := by
+  have hm := matchRe_not_rgb (T := T) T' h
+  have hr : ∀ b, matchRe T' s ≠ some (.rgb b) := by
+    intro b hb
+    unfold matchRe at hb
+    split at hb
+    · split at hb <;> cases hb
+    · simp [h] at hb
+      split at hb
+      · split at hb
+        · split at hb <;> cases hb
+        · cases hb
+      · cases hb
+  unfold Color.parseNormT
+  rw [hm]
+  cases hc : matchRe T' s with
+  | none => rfl
+  | some r =>
+    cases r with
+    | hex six => rfl
+    | color8 ds => rfl
+    | rgb b => exact absurd hc (hr b)
+
 theorem named_colors_wf_tbl :
-    Gen.ansiColorNames.all (fun p => wfColor StyleVariant.fixed (namedColor p)) = true := by
+    Gen.ansiColorNames.all (fun p => asciiColorName p.1 && wfColorT StrTables.ascii StyleVariant.fixed (namedColor p)) = true := by
   decide +kernel
 
-theorem default_color_wf_tbl : wfColor StyleVariant.fixed defaultColor = true := by
+theorem default_color_wf_tbl :
+    (asciiColorName defaultColor.name && wfColorT StrTables.ascii StyleVariant.fixed defaultColor) = true := by
   decide +kernel
 
+omit hT in
 /-- Well-formedness of a colour does not depend on the code variant. -/
-theorem wfColor_indep {v v' : StyleVariant} {c : Color} (h : wfColor v c = true) : wfColor v' c = true := by
+theorem wfColor_indep {v v' : StyleVariant} {c : Color} (h : wfColorT T v c = true) : wfColorT T v' c = true := by
   rw [wfColor_iff] at h ⊢
-  exact ⟨h.1, Color.parse_ok_indep h.2⟩
+  exact ⟨h.1, Color.parseT_ok_indep T h.2⟩
+
+/-- …nor, for an ASCII lower-case name outside the `rgb(` form, on the interpreter's tables. -/
+theorem wfColor_of_ascii {v v' : StyleVariant} {c : Color}
+    (h : (asciiColorName c.name && wfColorT StrTables.ascii v' c) = true) : wfColorT T v c = true := by
+  simp only [asciiColorName, Bool.and_eq_true, beq_iff_eq, Option.isNone_iff_eq_none] at h
+  obtain ⟨⟨⟨⟨ha, hs⟩, hl⟩, hr⟩, hw⟩ := h
+  have hp := (wfColor_iff.mp hw).2
+  obtain ⟨hnsA, hlA⟩ := StrTables.ascii.ascii_word ha hs
+  obtain ⟨hns, hlT⟩ := T.ascii_word ha hs
+  unfold Color.parseT at hp
+  rw [hlA hl, StrTables.ascii.strip_noSpace hnsA] at hp
+  rw [wfColor_iff]
+  refine ⟨hns, ?_⟩
+  unfold Color.parseT
+  rw [hlT hl, T.strip_noSpace hns, parseNormT_not_rgb StrTables.ascii v hr]
+  exact Color.parseNormT_ok_indep _ hp
 
 theorem named_color_wf (v : StyleVariant) {p : List Char × Nat} (hp : p ∈ Gen.ansiColorNames) :
-    wfColor v (namedColor p) = true :=
-  wfColor_indep (List.all_eq_true.mp named_colors_wf_tbl p hp)
+    wfColorT T v (namedColor p) = true :=
+  wfColor_of_ascii (List.all_eq_true.mp named_colors_wf_tbl p hp)
 
-theorem default_color_wf (v : StyleVariant) : wfColor v defaultColor = true :=
-  wfColor_indep default_color_wf_tbl
+theorem default_color_wf (v : StyleVariant) : wfColorT T v defaultColor = true :=
+  wfColor_of_ascii default_color_wf_tbl
 
 /-- The sixteen system colours by their documented names. -/
 theorem standard_names_tbl :
@@ -52,11 +111,11 @@ def onlyColor (c : Color) (fg : Bool) : Style :=
     hash := ⟨f, b, some 0, some 0, none⟩, isNull := false, styleDef := none }
 
 /-- A well-formed colour's name, alone or after `on`, parses to exactly that colour. -/
-theorem parse_color_word {v : StyleVariant} {c : Color} (h : wfColor v c = true) :
-    parse v c.name = .ok (onlyColor c true) ∧ parse v (cl! "on " ++ c.name) = .ok (onlyColor c false) := by
+theorem parse_color_word {v : StyleVariant} {c : Color} (h : wfColorT T v c = true) :
+    parseT T v c.name = .ok (onlyColor c true) ∧ parseT T v (cl! "on " ++ c.name) = .ok (onlyColor c false) := by
   obtain ⟨hne, _, _, _⟩ := wfColor_facts h
   constructor
-  · have hwf : Wf v (onlyColor c true) :=
+  · have hwf : Wf T v (onlyColor c true) :=
       ⟨by simp [onlyColor], by show 0 < 8192; omega, by intro c' hc'; simp [onlyColor] at hc'; subst hc'; exact h,
        by intro c' hc'; simp [onlyColor] at hc', by rfl⟩
     have hj : joinSpace (strElems (onlyColor c true)) = c.name := by
@@ -64,7 +123,7 @@ theorem parse_color_word {v : StyleVariant} {c : Color} (h : wfColor v c = true)
     have := parse_render_nonempty hwf (by rw [hj]; simpa using hne)
     rw [hj] at this
     rw [this]; rfl
-  · have hwf : Wf v (onlyColor c false) :=
+  · have hwf : Wf T v (onlyColor c false) :=
       ⟨by simp [onlyColor], by show 0 < 8192; omega, by intro c' hc'; simp [onlyColor] at hc',
        by intro c' hc'; simp [onlyColor] at hc'; subst hc'; exact h, by rfl⟩
     have hj : joinSpace (strElems (onlyColor c false)) = cl! "on " ++ c.name := by
@@ -72,6 +131,103 @@ theorem parse_color_word {v : StyleVariant} {c : Color} (h : wfColor v c = true)
     have := parse_render_nonempty hwf (by rw [hj]; simp)
     rw [hj] at this
     rw [this]; rfl
+
+/-- More generally a word of any letter case whose `lower()` is a well-formed colour's name parses,
+alone or after `on`, to exactly that colour (`Style.parse` lower-cases the word; after `on`
+`Color.parse` does). -/
+theorem parse_color_word_lower {v : StyleVariant} {c : Color} {w : List Char} (h : wfColorT T v c = true)
+    (hne : w ≠ []) (hns : ∀ ch ∈ w, T.isSpace ch = false) (hl : T.lower w = c.name) :
+    parseT T v w = .ok (onlyColor c true) ∧ parseT T v (cl! "on " ++ w) = .ok (onlyColor c false) := by
+  obtain ⟨_, cns, clow, cp⟩ := wfColor_facts h
+  obtain ⟨f1, f2, f3, f4, f5⟩ := color_word_facts cp
+  have hpw : Color.parseT T v w = .ok c := by
+    rw [← Color.parseT_lower T v w, hl]; exact cp
+  have hkw : kwSet [none, none, none, none, none, none, none, none, none, none, none, none, none] = 0 := by decide
+  constructor
+  · have hnone : (T.strip w == cl! "none") = false := by
+      rw [T.strip_noSpace hns]
+      simp only [beq_eq_false_iff_ne, ne_eq]
+      intro hw
+      rw [hw, (T.word_facts (cl! "none") (by decide)).1] at hl
+      exact f4 hl.symm
+    have hemp : w.isEmpty = false := by simpa using hne
+    unfold parseT
+    simp only [hnone, hemp, Bool.or_self, Bool.false_eq_true, if_false]
+    rw [T.split_word hne hns, parseLoopT.eq_def]
+    simp only [hl, f1, f2, f3, f5, cp, beq_iff_eq, if_false]
+    rw [parseLoopT.eq_def]
+    simp [initT, makeColorT, cp, Except.map, hkw, onlyColor, strTruthy]
+  · have hs : T.split (cl! "on " ++ w) = [cl! "on", w] := by
+      show T.split (cl! "on" ++ ' ' :: w) = _
+      rw [T.split_append_space, T.split_word hne hns, (T.word_facts (cl! "on") (by decide)).2.1]
+      rfl
+    have hnone : (T.strip (cl! "on " ++ w) == cl! "none") = false := by
+      simp only [beq_eq_false_iff_ne, ne_eq]
+      intro hw
+      have := T.split_of_strip_eq hw (by decide) (T.word_facts (cl! "none") (by decide)).2.2
+      rw [hs] at this
+      cases this
+    unfold parseT
+    have hemp : (cl! "on " ++ w).isEmpty = false := rfl
+    simp only [hnone, hemp, Bool.or_self, Bool.false_eq_true, if_false, hs]
+    rw [parseLoop_on hpw, parseLoopT.eq_def]
+    simp [initT, makeColorT, hpw, Except.map, hkw, onlyColor, strTruthy]
+
+/-- The style with exactly attribute `i` specified, with value `on`, as `__init__` builds it. -/
+def single (i : Nat) (on : Bool) : Style :=
+  let a := if on then 1 <<< i else 0
+  { color := none, bgcolor := none, attributes := a, setAttributes := 1 <<< i, link := none,
+    hash := ⟨none, none, some a, some (1 <<< i), none⟩, isNull := false, styleDef := none }
+
+theorem kw_single_tbl : (List.range 13).all (fun i => [true, false].all fun b =>
+    kwSet ((List.replicate 13 none).set i (some b)) == 1 <<< i &&
+    kwVal ((List.replicate 13 none).set i (some b)) == (if b then 1 <<< i else 0) &&
+    (1 <<< i != 0)) = true := by
+  decide
+
+omit hT in
+theorem initT_single (v : StyleVariant) {i : Nat} (hi : i < 13) (b : Bool) :
+    initT T v none none ((List.replicate 13 none).set i (some b)) none = .ok (single i b) := by
+  have := List.all_eq_true.mp (List.all_eq_true.mp kw_single_tbl i (List.mem_range.mpr hi)) b (by cases b <;> simp)
+  simp only [Bool.and_eq_true, beq_iff_eq, bne_iff_ne, ne_eq] at this
+  obtain ⟨⟨h1, h2⟩, h3⟩ := this
+  unfold initT
+  simp only [h1, h2, h3, ne_eq, not_false_eq_true, if_true]
+  simp [single, strTruthy, storedLink_none]
+
+/-- An attribute word parses to exactly that attribute switched on; `not <word>` to switched off. -/
+theorem parse_attr_word {v : StyleVariant} {i : Nat} {n : List Char} (h : GoodAttr T i n) :
+    parseT T v n = .ok (single i true) ∧ parseT T v (cl! "not " ++ n) = .ok (single i false) := by
+  have hn : n ≠ cl! "none" := by
+    intro hn
+    have := h.idx
+    rw [hn] at this
+    have hnone : attrIndex (cl! "none") = none := by decide
+    rw [hnone] at this
+    cases this
+  constructor
+  · have hnone : (T.strip n == cl! "none") = false := by
+      rw [T.strip_noSpace h.nospace]; simpa using hn
+    have hemp : n.isEmpty = false := by simpa using h.ne
+    unfold parseT
+    simp only [hnone, hemp, Bool.or_self, Bool.false_eq_true, if_false]
+    rw [T.split_word h.ne h.nospace, parseLoop_attr h, parseLoopT.eq_def]
+    exact initT_single v h.lt true
+  · have hs : T.split (cl! "not " ++ n) = [cl! "not", n] := by
+      show T.split (cl! "not" ++ ' ' :: n) = _
+      rw [T.split_append_space, T.split_word h.ne h.nospace, (T.word_facts (cl! "not") (by decide)).2.1]
+      rfl
+    have hnone : (T.strip (cl! "not " ++ n) == cl! "none") = false := by
+      simp only [beq_eq_false_iff_ne, ne_eq]
+      intro hw
+      have := T.split_of_strip_eq hw (by decide) (T.word_facts (cl! "none") (by decide)).2.2
+      rw [hs] at this
+      cases this
+    have hemp : (cl! "not " ++ n).isEmpty = false := rfl
+    unfold parseT
+    simp only [hnone, hemp, Bool.or_self, Bool.false_eq_true, if_false, hs]
+    rw [parseLoop_not_attr h, parseLoopT.eq_def]
+    exact initT_single v h.lt false
 
 /-- `r` is the successful result `s` (exactly: fields, `_null`, stored hash, empty cache). -/
 def isOk (r : Except StyleErr Style) (s : Style) : Bool :=
